@@ -31,6 +31,8 @@ SETS = {
     "mixed_generate_chain": [plain("a"), corr("c1", ["a"], True), corr("c2", ["c1"], True), corr("c3", ["c2"], False), plain("u")],
     "inner_generates_not": [plain("a"), corr("c1", ["a"], False), corr("c2", ["c1"], True)],
     # a correlation rule that has a name AND an id, referred to by its id
+    # ids written in upper case / with braces are still ids
+    "upper_id": [plain("a"), plain("b", ID_B), corr("c1", ["a", ID_B.upper()]), corr("c2", ["{" + ID_B + "}", "c1"])],
     "corr_by_id": [plain("a"), {**corr("c1", ["a"]), "id": ID_C}, corr("c2", [ID_C]), {**corr("c3", ["c1", ID_B2]), "id": ID_C3}, plain("b2", ID_B2)],
 }
 
@@ -123,6 +125,8 @@ class C09Bounded(Bounded):
                     got = {k: v[0] for k, v in dict(o[1]).items()}
                     if got != {"a": False, "c1": True, "c2": True}:
                         fails.append({"text": f"generation: rules emitting their own query {got}, expected a: False (referenced without generate), c1: True (referenced with generate), c2: True", "input": [sname]})
+                if sname == "upper_id" and o[0] != "ok":
+                    fails.append({"text": f"rules referred to by their id written in upper case / with braces: {o}", "input": [sname]})
                 if sname == "corr_by_id" and o[0] != "ok":
                     fails.append({"text": f"correlation rules referred to by their id (they also have a name): {o}", "input": [sname]})
                 if sname == "missing" and o != ("error", "SigmaRuleNotFoundError"):
